@@ -64,6 +64,7 @@ int main(int argc, char **argv) {
             else if (!strcmp(tok[0], "bstr")) ok = op_bstr(nt - 1, tok + 1);
             else if (!strcmp(tok[0], "num")) ok = op_num(nt - 1, tok + 1);
             else if (!strcmp(tok[0], "fn")) ok = op_fn(nt - 1, tok + 1);
+            else if (!strcmp(tok[0], "cfun")) ok = op_cfun(nt - 1, tok + 1);
             else if (!strcmp(tok[0], "urlenc")) ok = op_urlenc(nt - 1, tok + 1);
             else if (!strcmp(tok[0], "mpart")) ok = op_mpart(nt - 1, tok + 1);
             else if (!strcmp(tok[0], "work") && nt == 1) { printf("%lu", g_work); g_work = 0; ok = 1; }
